@@ -311,15 +311,18 @@ def factOK (disc : List (Nat × LDisc)) (roles : List (Nat × Role)) (f : Fact) 
 def isKnown (known : List (Nat × Nat × AKind)) (f : Fact) : Bool :=
   known.any (fun k => k.1 == f.loc && k.2.1 == f.fn && k.2.2 == f.kind)
 
+def cacheLookup (disc : List (Nat × LDisc)) (cache : Option (Nat × Option LDisc)) (loc : Nat) : Option LDisc :=
+  match cache with
+  | some (l, d) => if l == loc then d else lookup disc loc
+  | none => lookup disc loc
+
 /-- `factOK` with the discipline of the previous fact's location cached (the generated list is
 sorted by location; the result does not depend on the order). -/
 def checkFrom (disc : List (Nat × LDisc)) (roles : List (Nat × Role)) (known : List (Nat × Nat × AKind)) :
     Option (Nat × Option LDisc) → List Fact → Bool
   | _, [] => true
   | cache, f :: fs =>
-    let d? : Option LDisc := match cache with
-      | some (l, d) => if l == f.loc then d else lookup disc f.loc
-      | none => lookup disc f.loc
+    let d? : Option LDisc := cacheLookup disc cache f.loc
     ((match d? with
       | some d => factComplies (roleOf roles f.fn) d f
       | none => false) || isKnown known f) && checkFrom disc roles known (some (f.loc, d?)) fs
